@@ -300,6 +300,24 @@ class ShapeLifter(Lifter):
                     ok = True
                 if not ok:
                     return TOP
+            if isinstance(it, ast.Call) and U(it.func) == 'zip' \
+                    and len(it.args) >= 2:
+                # the sequences are paired by position: they must have the
+                # same length and layout, `zip` truncates silently otherwise
+                vs_ = [self.ev(a_, env, fn, depth, owner) for a_ in it.args]
+                arrs_ = [v_ for v_ in vs_ if isinstance(v_, Arr)
+                         and v_.ndim == 1]
+                for v_ in arrs_[1:]:
+                    if not eq(v_.axes[0].size, arrs_[0].axes[0].size):
+                        self.note('layout', n,
+                                  '`%s` pairs a sequence of length %s with '
+                                  'one of length %s by position: zip stops '
+                                  'at the shorter one and pairs entry k of '
+                                  'one with entry k of the other although '
+                                  'they describe different things' % (
+                                      U(it)[:50], arrs_[0].axes[0].size,
+                                      v_.axes[0].size))
+                        break
             if isinstance(it, ast.Call) and U(it.func) in ('enumerate',
                                                            'zip') \
                     and it.args:
@@ -807,6 +825,34 @@ class ShapeLifter(Lifter):
     def _call(self, n, env, fn, depth, owner):
         f = U(n.func)
         ev = lambda e: self.ev(e, env, fn, depth, owner)   # noqa: E731
+        if f in ('itertools.repeat',) and len(n.args) == 2:
+            k_ = self.as_int(ev(n.args[1]))
+            if k_ is not None:
+                return Arr([Ax(k_)], is_list=True)
+            return TOP
+        if f in ('list', 'tuple') and n.args and isinstance(
+                n.args[0], ast.Call) and U(n.args[0].func) in (
+                'itertools.chain.from_iterable', 'chain.from_iterable') \
+                and n.args[0].args and isinstance(
+                    n.args[0].args[0], (ast.GeneratorExp, ast.ListComp)):
+            comp = n.args[0].args[0]
+            outer = self.listcomp(comp, env, fn, depth, owner)
+            # one inner list per element of the comprehension
+            env2 = dict(env)
+            for g in comp.generators:
+                for x in ast.walk(g.target):
+                    if isinstance(x, ast.Name):
+                        env2.setdefault(x.id, TOP)
+            try:
+                inner = self.ev(comp.elt, env2, fn, depth, owner)
+            except Exception:
+                inner = TOP
+            if isinstance(outer, Arr) and isinstance(inner, Arr) \
+                    and inner.ndim == 1:
+                nest = outer.axes[0].nest + inner.axes[0].nest
+                return Arr((Ax(outer.axes[0].size * inner.axes[0].size,
+                               nest),), is_list=True)
+            return TOP
         if f in ('np.asarray', 'np.array', 'np.copy', 'np.sqrt', 'np.log',
                  'np.exp', 'np.abs', 'copy.copy', 'copy.deepcopy', 'list',
                  'np.ma.filled', 'np.isnan', 'np.isinf', 'np.isfinite',
@@ -956,12 +1002,28 @@ class ShapeLifter(Lifter):
                 return Arr((Ax(v.total() * k, nest),), is_list=v.is_list)
             return TOP
         if isinstance(n.func, ast.Attribute) and n.func.attr == 'integers' \
-                and n.args:
-            hi = ev(n.args[-1]) if len(n.args) <= 2 else None
+                and (n.args or n.keywords):
+            hi = ev(n.args[-1]) if 1 <= len(n.args) <= 2 else (
+                ev(n.args[1]) if len(n.args) == 3 else None)
+            if len(n.args) == 1 and not any(
+                    k.arg == 'high' for k in n.keywords) and any(
+                    k.arg == 'low' for k in n.keywords):
+                hi = None
             for k in n.keywords:
                 if k.arg == 'high':
                     hi = ev(k.value)
             b = self.as_int(hi)
+            sz_ = None
+            for k in n.keywords:
+                if k.arg == 'size':
+                    sz_ = self.as_int(ev(k.value))
+            if len(n.args) == 3:
+                sz_ = self.as_int(ev(n.args[2]))
+            if b is not None and sz_ is not None:
+                # a vector of random row indices below b
+                a_ = Arr([Ax(sz_)])
+                a_.randbound = b
+                return a_
             if b is not None:
                 return RandIdx(b)
             return TOP
